@@ -1,5 +1,6 @@
 """Per-property configuration and the check procedure (DESIGN.md §4.1)."""
 import json
+import random
 import os
 import shutil
 import time
@@ -348,6 +349,33 @@ def op_histogram(hists):
     return h
 
 
+def result_profile(results):
+    """what the answers looked like: per operation kind how many answers were errors, refusals, absences;
+    how many answers the model decided (and so were compared); the option grid the histories ran on"""
+    classes, cfgs = {}, {}
+    compared = undecided = 0
+    for h in results:
+        for l, i, m in zip(h["lines"], h["impl"], h["model"]):
+            a = l.split()
+            if not a:
+                continue
+            k = a[0] if a[0] != "imm" or len(a) < 3 else "imm:" + a[2]
+            if k == "cfg":
+                for tok in a[1:]:
+                    cfgs[tok] = cfgs.get(tok, 0) + 1
+            if m in (None, "?"):
+                undecided += 1
+            else:
+                compared += 1
+            r = (i or "").split(" ## ")[0]
+            cl = "err" if r.startswith("err") else "absent" if r in ("-", "- -", "0", "[]") else "panic/hang" if r in ("panic", "hang", "fatal") else None
+            if cl:
+                d = classes.setdefault(k, {})
+                d[cl] = d.get(cl, 0) + 1
+    return {"answers_compared_with_model": compared, "answers_without_model_prediction": undecided,
+            "error_or_absence_answers_by_kind": classes, "option_grid": cfgs}
+
+
 def run_check(prop, tier, seed, n_override=None):
     cfg = PROPS[prop]
     t0 = time.time()
@@ -398,6 +426,17 @@ def run_check(prop, tier, seed, n_override=None):
         else:
             hists = corpus(prop) + v1gen.generate(seed, n, cfg["profile"])
         mode = cfg.get("mode", "exec")
+        if mode == "crash":
+            # ask for the physical write log after half of the mutating operations (tie of Model/Flusher.lean)
+            wr = random.Random(seed * 31 + 7)
+            def with_wlog(lines):
+                out = []
+                for l in lines:
+                    out.append(l)
+                    if l.split()[0] in ("save", "prune", "loadow", "delfrom") and wr.random() < 0.5:
+                        out.append("wlog")
+                return out
+            hists = [(hid, with_wlog(lines)) for hid, lines in hists]
         if cfg.get("kind") == "multi":
             results = []
             cps = corpus(prop)
@@ -509,11 +548,16 @@ def run_check(prop, tier, seed, n_override=None):
             print("VIOLATION property=%s replay=%s no-failing-input-found" % (prop, path))
         samples = [hists[len(corpus(prop))][1][:40]] if len(hists) > len(corpus(prop)) else []
         thm = proof["theorems"][0]["theorem"] if proof["theorems"] else None
+        prof = result_profile(results)
+        level = json.load(open(os.path.join(ROOT, "lib", "levels.json"))).get(prop, "proof")
         ev = {
             "property_id": prop, "tier": tier if tier in ("quick", "thorough") else "quick", "seed": seed,
-            "level": json.load(open(os.path.join(ROOT, "lib", "levels.json"))).get(prop, "proof"),
+            "level": level,
             "coverage": {
-                "obligations": max(1, proof["obligations"]), "discharged": proof["discharged"],
+                # Lean obligations of this property (none for the properties decided by translation validation only)
+                "obligations": proof["obligations"], "discharged": proof["discharged"],
+                "programs": len(hists), "disagreements_checked": prof["answers_compared_with_model"],
+                "result_profile": prof,
                 "checker_cmd": "cd lean && lake build Iavl.Props.%s && lake env lean <#print axioms of each theorem>" % prop,
                 "trusted_base": C.TRUSTED_BASE,
                 "theorems": proof["theorems"],
